@@ -83,6 +83,8 @@ func Main() {
 			emit(&Out{Item: it.ID, Kind: "inconsistent", What: "no adapter registered"})
 			continue
 		}
+		// a fatal error inside generated code (stack exhaustion, out of memory) kills the process: say where we were
+		fmt.Fprintf(os.Stderr, "VERIF-BEGIN %s\n", it.ID)
 		f(&spec, it, im)
 		outW.Flush()
 	}
@@ -123,6 +125,17 @@ func (s *stats) violation(prop, key, what string, c map[string]any) {
 	c["grammar"] = s.it.Text
 	c["flags"] = s.it.Flags
 	emit(&Out{Item: s.it.ID, Fam: s.it.Fam, Kind: "violation", Prop: prop, Key: key, What: what, Case: c})
+}
+
+// enough: three violations of one property were reported for this item; further exploration of it adds nothing
+// (and a runaway parser makes every further input expensive).
+func (s *stats) enough() bool {
+	for _, n := range s.nviol {
+		if n >= 3 {
+			return true
+		}
+	}
+	return false
 }
 
 func (s *stats) flush() {
